@@ -163,10 +163,14 @@ pub fn run(ctx: &Ctx) -> Report {
     let f = std::fs::File::create(sb.path("content")).unwrap();
     f.set_len(size).unwrap();
     drop(f);
-    let out = Cmd::new(&ctx.imdl, &["torrent", "create", "--input", "content", "--output", "o.torrent"]).cwd(&sb.root).run();
+    // other options of create ride along; they must not influence the choice
+    let noise = super::create_noise(&mut crate::rng::Rng(ctx.seed ^ size ^ 0xC15), &[]);
+    let mut args: Vec<String> = ["torrent", "create", "--input", "content", "--output", "o.torrent"].iter().map(|s| s.to_string()).collect();
+    args.extend(noise.iter().cloned());
+    let out = Cmd::args_owned(&ctx.imdl, args).cwd(&sb.root).run();
     report.case(Some(0xC15_0000_0000 + size));
     report.hit("create:auto-piece-length");
-    let case = json!({"create_sparse_file_size": size});
+    let case = json!({"create_sparse_file_size": size, "other_options": noise});
     if !out.ok() {
       report.fail("property", "create-auto-rejected", case, format!("create without --piece-length failed: {}", out.stderr_s()));
       continue;
@@ -177,6 +181,23 @@ pub fn run(ctx: &Ctx) -> Report {
       .and_then(|v| v.get("info").and_then(|i| i.get("piece length")).and_then(|p| p.as_int()));
     if pl != Some(spec(size) as i128) {
       report.fail("property", "create-auto-piece-length", case, format!("created torrent has piece length {pl:?}, spec {}", spec(size)));
+    }
+  }
+  // standard input: the size is unknown in advance; whatever length is chosen must still satisfy the rules the lints enforce
+  for (i, len) in [0usize, 1, 300_000].into_iter().enumerate() {
+    let sb = Sandbox::new(&ctx.work, "c15s");
+    let out = Cmd::new(&ctx.imdl, &["torrent", "create", "--input", "-", "--name", "piped", "--output", "o.torrent"]).cwd(&sb.root).stdin(&vec![7u8; len]).run();
+    report.case(Some(0xC15_5000_0000 + i as u64));
+    report.hit("create:auto-piece-length-stdin");
+    let case = json!({"create_from_stdin_bytes": len});
+    if !out.ok() {
+      report.fail("property", "create-auto-rejected", case, format!("create without --piece-length failed: {}", out.stderr_s()));
+      continue;
+    }
+    let pl = std::fs::read(sb.path("o.torrent")).ok().and_then(|t| bencode::decode(&t).ok()).and_then(|v| v.get("info").and_then(|i| i.get("piece length")).and_then(|p| p.as_int()));
+    match pl {
+      Some(p) if p >= 16384 && p <= 16 << 20 && (p as u64).is_power_of_two() => {}
+      other => report.fail("property", "create-auto-piece-length", case, format!("piece length chosen for standard input is {other:?}: not a power of two between 16 KiB and 16 MiB")),
     }
   }
   // directories whose excluded entries (junk, hidden, glob-excluded, unfollowed symlinks) would cross a threshold if they
